@@ -107,7 +107,14 @@ def canaries(u, chk, n=40):
         k = dict(c)
         obs = list(c['obs'])
         idx = rng.choice([i for i, o in enumerate(obs) if o['k'] == 't'])
-        if rng.random() < 0.5:
+        rt = repr(u.meta[c['id']]['term'])
+        if "'fc'" in rt or "'line'" in rt:
+            # flat_choice alternatives (LINE = ' ' or a newline is one) may differ by exactly one fragment, so a
+            # dropped or duplicated fragment can be another legitimate layout (run #4, seed 3: dropping the ' ' of a
+            # flat LINE after a broken SOFTLINE); a text that occurs nowhere in the document never is
+            obs.insert(idx, dict(obs[idx], t=987654, n=3, r=3))
+            why = 'foreign text fragment inserted'
+        elif rng.random() < 0.5:
             del obs[idx]
             why = 'text fragment dropped'
         else:
